@@ -199,11 +199,11 @@ def gen_builtin(rng, b, vary=True):
     if b == "gMonth":
         return f"--{rng.randint(1, 12):02d}" + rng.choice(["", "", "Z"])
     if b == "hexBinary":
-        bs = bytes(rng.randrange(256) for _ in range(rng.choice([0, 1, 2, 5, 8])))
+        bs = bytes(rng.randrange(256) for _ in range(rng.choice([0, 1, 2, 5, 8] if vary == "exotic" else [1, 2, 5, 8])))
         h = bs.hex()
         return h.upper() if rng.random() < 0.6 or not vary else h
     if b == "base64Binary":
-        bs = bytes(rng.randrange(256) for _ in range(rng.choice([0, 1, 2, 3, 5, 9])))
+        bs = bytes(rng.randrange(256) for _ in range(rng.choice([0, 1, 2, 3, 5, 9] if vary == "exotic" else [1, 2, 3, 5, 9])))
         s = base64.b64encode(bs).decode()
         if vary and len(s) > 4 and rng.random() < 0.2:
             s = s[:4] + " " + s[4:]
@@ -410,7 +410,7 @@ class SchemaGen:
         elif k < 0.5:
             a["default"] = self.default_for(t)
         elif k < 0.6:
-            a["fixed"] = self.default_for(t)
+            a["fixed"] = self.fixed_for(t)
         if self.has("ns") and r.random() < 0.2:
             a["form"] = not qualified_default
         return a
@@ -419,8 +419,21 @@ class SchemaGen:
         """A default/fixed value: no surrounding white space, no characters that need care in an attribute."""
         for _ in range(20):
             v = self.gen_value(t, vary=False)
-            if v == v.strip() and "\n" not in v and "\t" not in v and "  " not in v and v not in ("NaN",) \
+            if v != "" and v == v.strip() and "\n" not in v and "\t" not in v and "  " not in v and v not in ("NaN",) \
                     and not re.search(r"\d[eE][+-]?\d", v):      # libxml2 compares fixed doubles lexically (1e3 vs 1E3)
+                return v
+        return None
+
+    FIXED_SAFE = {"string", "token", "NMTOKEN", "language", "boolean", "gYear", "date", "Name", "NCName", "anyURI"} | set(INT_RANGES)
+
+    def fixed_for(self, t):
+        """A fixed value: libxml2 compares fixed values of some types lexically (1e3 / 1E3, -00:00 / Z), so only
+        types and forms that every processor writes back unchanged."""
+        if self.prim_of(t) not in self.FIXED_SAFE:
+            return None
+        for _ in range(20):
+            v = self.default_for(t)
+            if v is not None and v != "" and not re.search(r"[Z+:]|^0\d|^-0", v) and v not in ("1", "0"):
                 return v
         return None
 
@@ -470,8 +483,8 @@ class SchemaGen:
             return 0, 1
         if k < 0.82:
             return 0, None
-        if k < 0.9:
-            return 1, None
+        if k < 0.9 or group:
+            return 1, None        # libxml2 miscounts bounded repetitions of groups with optional content: 0/1/unbounded only
         return r.choice([(2, 3), (0, 2), (1, 4), (2, 2), (2, None)])
 
     def gen_leaf(self, f, names, owner=None, single=False):
@@ -518,7 +531,10 @@ class SchemaGen:
             if self.has("defaults") and r.random() < 0.15:
                 v = self.default_for(decl["type"])
                 if v:
-                    decl["default" if r.random() < 0.7 else "fixed"] = v
+                    if r.random() < 0.7:
+                        decl["default"] = v
+                    else:
+                        decl["fixed"] = self.fixed_for(decl["type"])
         if self.has("nillable") and r.random() < 0.25 and decl["default"] is None and decl["fixed"] is None:
             decl["nillable"] = True
         if self.has("ns") and r.random() < 0.15:
@@ -1137,11 +1153,13 @@ class DocGen:
     # -- counts
     def count(self, p):
         mn, mx = p["min"], p["max"]
-        if self.style == "min" or self.depth > 3:
+        if self.style == "min" or self.depth > 2:
             return mn
         hi = mx if mx is not None else max(mn, 1) + 2
+        if self.depth == 2:
+            hi = min(hi, max(mn, 1))
         if self.style == "max":
-            return min(hi, mn + 3) if self.depth < 2 else min(hi, max(mn, 1))
+            return min(hi, mn + 3) if self.depth < 2 else hi
         return self.r.choice([mn, hi, self.r.randint(mn, hi), min(max(mn, 1), hi)])
 
     # -- element content
@@ -1169,7 +1187,7 @@ class DocGen:
                 for i in p["items"]:
                     out += self.children(i, tns_of_type)
             elif k == "choice":
-                if self.depth > 3 or self.style == "min":
+                if self.depth > 2 or self.style == "min":
                     items = sorted(p["items"], key=lambda i: (i["min"] > 0, self.weight(i)))
                     out += self.children(items[0], tns_of_type)
                 else:
